@@ -234,7 +234,7 @@ func c16WS(c *Ctx, i int) {
 		id := 1 + r.Intn(3)
 		switch r.Intn(7) {
 		case 0, 1:
-			acts = append(acts, cnAction{Op: "fail", Arg: int64(1 + r.Intn(3))})
+			acts = append(acts, cnAction{Op: "fail", Arg: int64(1 + r.Intn(4))})
 		case 2, 3:
 			acts = append(acts, cnAction{Op: "subscribe", ID: id, Query: 4}) // the query with the flaky field
 		case 4:
@@ -280,6 +280,11 @@ func c16WS(c *Ctx, i int) {
 	for _, g := range c02Split(res.Events) {
 		if len(g.kinds) > 0 && g.kinds[0] == "error" && (len(g.kinds) != 1 || !g.ended) {
 			rep.Fail("impl_ne_spec", nil, cs, map[string]interface{}{"what": "an initially failing subscription must be reported once and then closed", "envelopes": g.kinds, "closed": g.ended, "id": g.id})
+			return
+		}
+		// a subscription that ended on its own before any run succeeded has failed initially: that must have been said
+		if g.ended && !g.unsub && g.execs > 0 && len(g.results) == 0 && len(g.kinds) == 0 {
+			rep.Fail("impl_ne_spec", nil, cs, map[string]interface{}{"what": "a subscription whose first run failed was closed without the failure being reported", "id": g.id, "query": g.query})
 			return
 		}
 	}
